@@ -400,6 +400,23 @@ def rule_v1(chk: Check, ix: Index):
         r1b = inline_temp_return(eliminate_early_return(cut_after_return(fold(r1b))))
         if dump(r0b) == dump(r1b):
             ok, why = lemma_falsy_tree_means_no_move(f.node)
+            if not ok and f.node.name == "memoize_left_rec_wrapper":
+                # the syntactic lemma does not fit this spelling: decide the same fact by evaluating the wrapper from source, tracing
+                # on and off, on every token stream of length <= 5 for  r: r '+' 'n' | 'n'  (result, position, cache, second call)
+                import itertools
+                from .c17 import EvalError, eval_left_rec
+                try:
+                    diffs = []
+                    for n in range(0, 6):
+                        for stream in itertools.product("n+x", repeat=n):
+                            a = eval_left_rec(f.node, False, stream)
+                            b = eval_left_rec(f.node, True, stream)
+                            if a != b:
+                                diffs.append(("".join(stream), a[:4], b[:4]))
+                    ok = not diffs
+                    why = f"tracing changes the outcome on {diffs[:1]}" if diffs else ""
+                except EvalError as e:
+                    why = f"{why}; not evaluable either: {e}"
             chk.count("V2-reset-lemma")
             chk.require(ok, "V2-reset-lemma", key, f.where,
                         f"verbose and non-verbose paths differ in `if tree: self._reset(endmark)` vs an unconditional reset; that is "
